@@ -22,10 +22,13 @@ import (
 // ---- engine 3: the real one-worker trigger pool, one statistics collect per iteration ----------
 //
 // With a single worker every Record and every Snapshot below happens on the
-// worker goroutine (the snapshot is taken inside the iteration's cleanup), so
-// this is sequential use: the period figures of that snapshot are exactly the
-// iteration that has just been recorded, which gives the recorded duration of
-// each iteration individually. Iterations fall into two classes:
+// worker goroutine (a snapshot is taken inside each iteration's cleanup, one more
+// after the pool has stopped), so this is sequential use, and exactly one
+// iteration is recorded between two consecutive collects. Every period therefore
+// holds at most one record, which yields the recorded duration of each iteration
+// individually (the k-th record found belongs to the k-th iteration); the growth
+// of the exported summary's sum is read the same way. Iterations fall into two
+// classes:
 //   after-idle: first request of a tick; the worker had been waiting for work >= idle ms
 //   queued:     2nd/3rd request of a tick; the request waited for the worker through the
 //               preceding iteration's body and cleanup (>= 60 ms)
